@@ -1,8 +1,105 @@
 (* Properties/C07.v — Automatic cut finding returns a feasible, faithfully accounted cut circuit.
-   Only theorem statements (closed by `exact`), non-vacuity examples, facts obligations, Print Assumptions. *)
+   Only theorem statements (closed by `exact`), non-vacuity examples, facts obligations, Print Assumptions.
+
+   Vocabulary (Proofs/CutFinderSpec.v, declarative, independent of the search):
+     plan              position in circuit.data -> Leave | KGateCut | KLeftCut | KRightCut | KBothCut
+     render t p c      the circuit c with ONLY markers added according to p: every instruction stays in place and order;
+                       KGateCut wraps the gate (TwoQubitQPDGate.from_instruction, table t); a wire cut puts CutWire
+                       markers IMMEDIATELY BEFORE the gate on its first / second / first-then-second input qubit
+     plan_permitted    cut kinds occur only at two-qubit gates, gate cuts only if gate_lo and the gate has a QPD basis,
+                       wire cuts only if wire_lo
+     plan_overhead     product over the decisions: kappa^2 for a gate cut, 16 per CutWire marker (16*16 for both wires)
+     segment_graph c   nodes = wire segments (qubit, number of CutWire markers before), edges = uncut multi-qubit gates
+     feasible W c      every set of pairwise connected segments has at most W members
+   find_cuts_full fuel i = Val r : the modelled find_cuts returned (circuit fr_circ r, metadata fr_meta r).
+   circ_wf c    : every multi-qubit non-barrier instruction acts on exactly two distinct qubits
+   circ_plain c : ordinary gates and barriers only (no pre-placed markers)
+   gtab_ok t    : the harness-supplied wrapped form of a gate is a TwoQubitQPDGate                                  *)
 From Coq Require Import QArith String.
-From CKT Require Import Model.CutFinder Extracted.Facts.
+From CKT Require Import Model.CutFinder Extracted.Facts
+  Proofs.UFP Proofs.CutFinderSpec Proofs.CutFinderOut Proofs.CutFinderCirc Proofs.CutFinderRender Proofs.CutFinderP.
 Close Scope Q_scope.
+
+(* the output is the input with only markers added *)
+Theorem c07_only_markers : forall fuel i r,
+  find_cuts_full fuel i = Val r -> circ_wf (fi_circ i) ->
+  exists p : plan, fr_circ r = render (fi_gtab i) p (fi_circ i) /\
+                   plan_permitted (fi_gtab i) (fi_gate_lo i) (fi_wire_lo i) (fi_circ i) p.
+Proof. exact only_markers. Qed.
+
+(* reading a rendering backwards: erasing the CutWire markers leaves the input, cut gates wrapped, nothing else touched *)
+Theorem c07_erase_markers : forall t p c, gtab_ok t -> circ_plain c ->
+  erase_cut_wires (render t p c) = wrapmap t p 0 c /\
+  length (wrapmap t p 0 c) = length c /\
+  forall j, j < length c ->
+    nth j (wrapmap t p 0 c) dI = match p j with KGateCut => wrap_op t (nth j c dI) | _ => nth j c dI end.
+Proof.
+  intros t p c Ht Hc. split; [exact (erase_render t p Ht c 0 Hc)|]. split; [apply wrapmap_length|].
+  intros j Hj. exact (wrapmap_nth t p 0 c j Hj).
+Qed.
+
+(* the metadata lists exactly the positions and kinds of the markers, in increasing position *)
+Theorem c07_metadata : forall fuel i r,
+  find_cuts_full fuel i = Val r -> circ_wf (fi_circ i) ->
+  incr_from 0 (map snd (md_cuts (fr_meta r))) /\
+  forall kd j, In (kd, j) (md_cuts (fr_meta r)) <-> marker_at (fr_circ r) j = Some kd.
+Proof. exact metadata_spec. Qed.
+
+(* the reported overhead is the product of the overheads of the cuts actually made *)
+Theorem c07_accounting : forall fuel i r,
+  find_cuts_full fuel i = Val r -> circ_wf (fi_circ i) ->
+  exists p : plan, fr_circ r = render (fi_gtab i) p (fi_circ i) /\
+    plan_permitted (fi_gtab i) (fi_gate_lo i) (fi_wire_lo i) (fi_circ i) p /\
+    (md_overhead (fr_meta r) == plan_overhead (fi_gtab i) p (fi_circ i))%Q.
+Proof. exact accounting. Qed.
+
+(* every subcircuit obtained by cutting at the markers uses at most W qubits *)
+Theorem c07_feasible : forall fuel i r,
+  find_cuts_full fuel i = Val r -> circ_wf (fi_circ i) -> circ_plain (fi_circ i) -> gtab_ok (fi_gtab i) ->
+  feasible (fi_W i) (fr_circ r).
+Proof. exact feasible_result. Qed.
+
+(* union-find: the path-collapsing loop of find_wire_root (left out of the model) is unobservable *)
+Theorem c07_compression_invisible : forall u w, uf_wf u ->
+  uf_wf (compress u w) /\ forall x, find (compress u w) x = find u x.
+Proof. exact find_compress. Qed.
+
+(* ---------------- non-vacuity ---------------- *)
+Definition ex_q2 := Qpd2 0 None (Some (0, None)).
+Definition ex_q2s := Qpd2 1 None (Some (1, None)).
+Definition ex_gtab : gtab := [(0, (3%Q, ex_q2)); (1, (7%Q, ex_q2s))].
+(* h(2); cx(0,2); barrier(0,2); swap(2,1); cx(0,2) on 4 qubits: qubit 3 idle, first use in the order 2,0,1 *)
+Definition ex_circ : circ :=
+  [mkI (Gate 2) [2] []; mkI (Gate 0) [0; 2] []; mkI (Barrier None) [0; 2] []; mkI (Gate 1) [2; 1] []; mkI (Gate 0) [0; 2] []].
+Definition ex_in (gl wl : bool) (W : nat) : fc_input :=
+  mkIn 4 0 ex_circ ex_gtab W gl wl 1024%Q (Some 10000%Z) (fun k => Qmake (Z.of_nat k) 100).
+
+Example c07_ex_hyps : circ_wf ex_circ /\ circ_plain ex_circ /\ gtab_ok ex_gtab.
+Proof.
+  split; [|split].
+  - intros i Hi Hm. simpl in Hi. destruct Hi as [<-|[<-|[<-|[<-|[<-|[]]]]]]; cbn in Hm; try discriminate;
+      (split; [reflexivity|]); repeat constructor; simpl; intuition discriminate.
+  - intros i Hi. simpl in Hi. destruct Hi as [<-|[<-|[<-|[<-|[<-|[]]]]]]; reflexivity.
+  - intros g kap o H. unfold ex_gtab in H. simpl in H.
+    destruct (Nat.eqb g 0); [inversion H; reflexivity|]. destruct (Nat.eqb g 1); [inversion H; reflexivity|discriminate].
+Qed.
+
+(* gate cuts only, W = 2: the swap is cut (overhead 49) *)
+Example c07_ex_gate : exists r, find_cuts_full 100 (ex_in true false 2) = Val r /\
+  fr_circ r = [mkI (Gate 2) [2] []; mkI (Gate 0) [0; 2] []; mkI (Barrier None) [0; 2] []; mkI ex_q2s [2; 1] []; mkI (Gate 0) [0; 2] []] /\
+  md_cuts (fr_meta r) = [(GateCut, 3)] /\ (md_overhead (fr_meta r) == 49)%Q.
+Proof. eexists; split; [vm_compute; reflexivity|]. repeat split. Qed.
+
+(* wire cuts only, W = 2: one marker before the swap, two before the last cx (overhead 16 * 256) *)
+Example c07_ex_wire : exists r, find_cuts_full 100 (ex_in false true 2) = Val r /\
+  fr_circ r = [mkI (Gate 2) [2] []; mkI (Gate 0) [0; 2] []; mkI (Barrier None) [0; 2] []; mkI CutWire [2] []; mkI (Gate 1) [2; 1] [];
+               mkI CutWire [0] []; mkI CutWire [2] []; mkI (Gate 0) [0; 2] []] /\
+  md_cuts (fr_meta r) = [(WireCut, 3); (WireCut, 5); (WireCut, 6)] /\ (md_overhead (fr_meta r) == 4096)%Q.
+Proof. eexists; split; [vm_compute; reflexivity|]. repeat split. Qed.
+
+(* wire cuts only, W = 1: refused *)
+Example c07_ex_refused : find_cuts 100 (ex_in false true 1) = Some Refused.
+Proof. vm_compute. reflexivity. Qed.
 
 (* tie to the source: the constants and tables hard-coded in Model/CutFinder*.v *)
 Theorem c07_facts :
@@ -30,4 +127,11 @@ Proof.
     (reflexivity || (exfalso; repeat (destruct Hk as [Hk|Hk]; try discriminate Hk); discriminate Hk))|]).
   contradiction.
 Qed.
+
+Print Assumptions c07_only_markers.
+Print Assumptions c07_erase_markers.
+Print Assumptions c07_metadata.
+Print Assumptions c07_accounting.
+Print Assumptions c07_feasible.
+Print Assumptions c07_compression_invisible.
 Print Assumptions c07_facts.
